@@ -861,6 +861,14 @@ def round_dec(v, k):
     f = {6: F_ROUND6, 8: F_ROUND8}.get(k)
     if f is None:
         raise EngineError(f"round to {k} decimals")
+    if is_conc(v) and not isinstance(v, bool):
+        # exact decimal rounding (half to even) of a concrete rational: the value the formatting prints (A1: floats are reals)
+        q = Fraction(v) * 10 ** k
+        n = q.numerator // q.denominator
+        r = q - n
+        if r > Fraction(1, 2) or (r == Fraction(1, 2) and n % 2 == 1):
+            n += 1
+        return Fraction(n, 10 ** k)
     return SV(f(zr(v)))
 
 
